@@ -507,6 +507,7 @@ impl World {
             }
         }
         let conf = self.my_conf(i);
+        let mut all_holders: Vec<u64> = vec![];
         for (name, half) in [("incoming", &conf.voters), ("outgoing", &conf.outgoing)] {
             if half.is_empty() {
                 continue;
@@ -523,6 +524,9 @@ impl World {
                 if has {
                     holders += 1;
                     who.push(*v);
+                    if !all_holders.contains(v) {
+                        all_holders.push(*v);
+                    }
                 }
             }
             if holders < half.len() / 2 + 1 {
@@ -534,6 +538,48 @@ impl World {
                         id, t, pre.committed, c, c, t, who, name, half
                     ),
                 );
+            }
+        }
+        // C11 (group commit, cluster side): when the application gave every voter a group and
+        // the tracker holds exactly that assignment, a committed entry is durable in at least
+        // two groups (unless all voters share one group)
+        if self.scen.group_commit {
+            let l = self.live(i).unwrap();
+            let prs = l.rn.raft.prs();
+            if prs.group_commit() {
+                let mut groups_all: Vec<u64> = vec![];
+                let mut complete = true;
+                for v in conf.voters.iter().chain(conf.outgoing.iter()) {
+                    let want = self.scen.nodes.get(*v as usize - 1).map(|c| c.group_id).unwrap_or(0);
+                    let have = prs.get(*v).map(|p| p.commit_group_id).unwrap_or(0);
+                    if want == 0 || have != want {
+                        complete = false;
+                        break;
+                    }
+                    if !groups_all.contains(&want) {
+                        groups_all.push(want);
+                    }
+                }
+                if complete && groups_all.len() >= 2 {
+                    ctx.stat(Stat::GroupCommitChecked);
+                    let mut held: Vec<u64> = vec![];
+                    for v in &all_holders {
+                        let g = self.scen.nodes[*v as usize - 1].group_id;
+                        if !held.contains(&g) {
+                            held.push(g);
+                        }
+                    }
+                    if held.len() < 2 {
+                        ctx.v(
+                            "C11",
+                            "group commit: committed entry is durable in fewer than two groups",
+                            format!(
+                                "leader {} term {} advanced commit {} -> {} with every voter grouped, but the entry is durable only on {:?} (groups {:?})",
+                                id, t, pre.committed, c, all_holders, held
+                            ),
+                        );
+                    }
+                }
             }
         }
     }
